@@ -45,7 +45,7 @@ def tree_case(rng, tier, algo=None):
         c["n"] = c["T"] = n = min(4 ** cexp, 1024 if tier == "thorough" else 256)
         c["resonant"] = True
     c["_cost"] = 3e-5 * n * n / 10 + 0.1
-    return gen.add_midqueries(rng, c, 0.25)
+    return gen.add_midqueries(rng, gen.add_queries(rng, c, 0.35, dense_prob=0.2), 0.25)
 
 
 def wrapper_case(rng, tier, algo=None):
